@@ -7,7 +7,7 @@ func init() { checks["C12"] = checkC12 }
 func checkC12(c *Check) {
 	c.Rule = "TLC (RulesGen.tla, alphabet AlphaKeys) enumerates every sequence of map keys / record-type keys in every event form (pint/int/bigint/nint, whole/array-API/chunked strings in 1 or 2 chunks, rid, uid, bool forms, date, string spelling a date; integers of 3, 4, 5 and 6 machine words) with null values, up to the length bound; the model rejects exactly at the first key equal by (type, value) to an earlier one; each behaviour is replayed into rules.NewRules. non-trivial = every behaviour (all contain a map or record type); distinct = distinct index sequences"
 	c.Assumptions = []string{"abs/concretiser of harness/abs.go", "TLC", "bounded number of keys per container (3-4)"}
-	reasons := []string{"dupkey"}
+	reasons := []string{"dupkey", "array"}
 	runRulesMC(c, "AlphaKeysScalar", map[string]int{"quick": 5, "thorough": 7}[c.Tier], defaultLim, "FilterKeys", "keys/scalar")
 	runRulesMC(c, "AlphaKeysStr", map[string]int{"quick": 8, "thorough": 10}[c.Tier], defaultLim, "FilterKeys", "keys/stringlike")
 	ns, nr, nt := 4, 3, 8
